@@ -223,6 +223,8 @@ def spec(tier, seed):
           bounds="all 65536 INTEGER values x address 0/1 x all 256 byte values; unwind 18 (checked)",
           functions=["rusty_basic::interpreter::context::PeekByte for Variant", "rusty_basic::interpreter::context::PokeByte for Variant"])
 
+    # (probed: PEEK / POKE on an INTEGER VArray of three elements with symbolic contents: no verdict in 600 s.)
+
     return b.build(
         tier,
         bounds="integers: none (all 2^16 values / 2^32 pairs, unwind 18 checked). decoder: all normal doubles and +-0. "
